@@ -487,7 +487,9 @@ def run(ctx: Ctx):
         gen = [i for i, c in enumerate(order) if (dotted(c.func) or "").split(".")[-1] == gen_name]
         load = [i for i, c in enumerate(order) if (dotted(c.func) or "").split(".")[-1] in ("load_ode", "cellml_to_gotran")]
         writes = [i for i, c in enumerate(order) if (isinstance(c.func, ast.Attribute) and c.func.attr in WRITE_ATTRS + ("save",) and not (dotted(c.func) or "").startswith("logger")) or (isinstance(c.func, ast.Name) and c.func.id == "open")]
-        ctx.require(gen and load, f"{short}::main: load/generate calls not found")
+        if not (gen and load):
+            ctx.undecided("R18.b", main.key("order"), f"{short}::main: the load / generate calls are not found in the function itself (moved into helpers?); their order relative to the write is not judged", main.where())
+            continue
         ctx.check(bool(writes), "R18.b", main.key("writes"), "main writes the result", f"{short}::main no longer writes an output file", main.where())
         if writes:
             first_w = order[writes[0]]
